@@ -309,7 +309,26 @@ def controller_seeding(repo: Repo):
             flt = "all-sorted" if partition == "plain-first" else "all"
             out.append((flt, value_ok, f"for {kv}, {cv} in {norm(lp.iter)[:50]} (partitioned, {partition}): {cv}.set_initial(self, {val})"))
             continue
-        if norm(src) not in ("self.controllers.items()",) or not (isinstance(lp.target, ast.Tuple) and len(lp.target.elts) == 2):
+        deferred_pol = None
+        if isinstance(lp.iter, ast.Name) and isinstance(lp.target, ast.Tuple) and len(lp.target.elts) == 2:
+            # for k, c in deferred:   `deferred` a list that an earlier pass over self.controllers.items() fills with the (name, controller)
+            # pairs it does not seed itself, selected by an isinstance(…, DependentRange) test
+            L = lp.iter.id
+            inits = [n for n in ast.walk(init) if isinstance(n, ast.Assign) and len(n.targets) == 1 and isinstance(n.targets[0], ast.Name) and n.targets[0].id == L]
+            fills = [n for n in ast.walk(init) if isinstance(n, ast.For) and n is not lp and norm(n.iter) == "self.controllers.items()"
+                     and isinstance(n.target, ast.Tuple) and len(n.target.elts) == 2 and inline.pos(n) < inline.pos(lp)]
+            if len(inits) == 1 and isinstance(inits[0].value, ast.List) and not inits[0].value.elts and len(fills) == 1:
+                fill = fills[0]
+                item = f"({norm(fill.target.elts[0])}, {norm(fill.target.elts[1])})"
+                apps = [c_ for c_ in ast.walk(init) if isinstance(c_, ast.Call) and isinstance(c_.func, ast.Attribute) and isinstance(c_.func.value, ast.Name)
+                        and c_.func.value.id == L]
+                if len(apps) == 1 and apps[0].func.attr == "append" and len(apps[0].args) == 1 and norm(apps[0].args[0]) == item \
+                        and any(apps[0] is x for x in ast.walk(fill)):
+                    for if_ in [n for n in fill.body if isinstance(n, ast.If) and not n.orelse]:
+                        if any(apps[0] is x for b in if_.body for x in ast.walk(b)) and isinstance(if_.body[-1], ast.Continue) \
+                                and all(isinstance(b, (ast.Expr, ast.Continue)) for b in if_.body):
+                            deferred_pol = _dep_polarity(packed.resolve_in_block(if_.test, fill.body))
+        if deferred_pol is None and (norm(src) not in ("self.controllers.items()",) or not (isinstance(lp.target, ast.Tuple) and len(lp.target.elts) == 2)):
             out.append(("?", None, norm(lp.iter)[:80]))
             continue
         kv, cv = norm(lp.target.elts[0]), norm(lp.target.elts[1])
@@ -339,6 +358,8 @@ def controller_seeding(repo: Repo):
                 unknown = True
             else:
                 pols.append(p)
+        if deferred_pol is not None:
+            pols = pols + [deferred_pol]
         if unknown or len(set(pols)) > 1 or (sort_key_unread and not pols):
             flt = "?"
         elif sorted_by_dep and not pols:
@@ -506,6 +527,11 @@ def _specialise(repo: Repo, k, fn: ast.FunctionDef) -> ast.FunctionDef:
                     if isinstance(sub, list) and not isinstance(st, ast.Expr):
                         setattr(st, fld, flatten_lists(sub))
                 out.append(st)
+        # what follows an unconditional return / raise in the same block is never run (a decided `if` may have exposed one)
+        for i_, st in enumerate(out):
+            if isinstance(st, (ast.Return, ast.Raise, ast.Continue, ast.Break)):
+                out = out[:i_ + 1]
+                break
         return out
     new.body = flatten_lists(new.body)
     ast.fix_missing_locations(new)
